@@ -1834,6 +1834,22 @@ impl Element {
                     }
                 }
             }
+            // check the compatibility of the character content: enum values can be limited to some versions
+            if let Some(cdata_spec) = elemtype_new.chardata_spec() {
+                for content_item in &element.content {
+                    if let ElementContent::CharacterData(cdata) = content_item {
+                        let (is_compatible, value_version_mask) =
+                            cdata.check_version_compatibility(cdata_spec, target_version);
+                        if !is_compatible {
+                            compat_errors.push(CompatibilityError::IncompatibleElement {
+                                element: self.clone(),
+                                version_mask: value_version_mask,
+                            });
+                        }
+                        overall_version_mask &= value_version_mask;
+                    }
+                }
+            }
         }
 
         // check the compatibility of all sub-elements
